@@ -35,6 +35,7 @@ type world struct {
 	mu          sync.Mutex
 	pendingOnce []onceCheck
 	timing      map[string]string
+	abandonOpen map[string]string // rig/half/class -> open backend connections [before, after k, after 2k]
 	hooks       *lib.HookCtl
 }
 
@@ -44,6 +45,15 @@ func (w *world) noteTiming(k, v string) {
 		w.timing = map[string]string{}
 	}
 	w.timing[k] = v
+	w.mu.Unlock()
+}
+
+func (w *world) noteOpen(k, v string) {
+	w.mu.Lock()
+	if w.abandonOpen == nil {
+		w.abandonOpen = map[string]string{}
+	}
+	w.abandonOpen[k] = v
 	w.mu.Unlock()
 }
 
@@ -62,21 +72,29 @@ type budget struct {
 	writes  int
 	wfaults int
 	fullq   int
+	abandon int // requests per batch of one abandonment class (two batches per half)
+	seqs    int // write-through sequences on one key per half
 }
 
 func rigTable(quick bool) ([]rigDef, map[string]budget) {
+	// Every reading rig has a finite max_proxy_blob_size, so that "the backend
+	// object turns out to be too large once its size is known" is reachable
+	// everywhere: a small limit (many ordinary sizes are near it) or one just
+	// above the largest object the generators draw. The queue rigs keep the
+	// default (unlimited).
 	const mp = 200_000
+	const mpBig = 3 * lib.MiB
 	defs := []rigDef{
-		{family: "http", storage: "zstd", maxProxy: 0, numUp: 2, maxQueue: 64, role: "read"},
+		{family: "http", storage: "zstd", maxProxy: mpBig, numUp: 2, maxQueue: 64, role: "read"},
 		{family: "http", storage: "uncompressed", maxProxy: mp, numUp: 2, maxQueue: 64, role: "read"},
 		{family: "grpc", storage: "zstd", maxProxy: mp, numUp: 2, maxQueue: 64, role: "read"},
-		{family: "grpc", storage: "uncompressed", maxProxy: 0, numUp: 2, maxQueue: 64, role: "read"},
+		{family: "grpc", storage: "uncompressed", maxProxy: mpBig, numUp: 2, maxQueue: 64, role: "read"},
 		{family: "fake", storage: "zstd", maxProxy: mp, role: "read", maxQueue: 1},
-		{family: "fake", storage: "uncompressed", maxProxy: 0, role: "read", maxQueue: 1},
+		{family: "fake", storage: "uncompressed", maxProxy: mpBig, role: "read", maxQueue: 1},
 		{family: "s3", storage: "zstd", maxProxy: mp, numUp: 2, maxQueue: 64, role: "read"},
-		{family: "s3", storage: "uncompressed", maxProxy: 0, numUp: 2, maxQueue: 64, role: "read"},
-		{family: "azure", storage: "zstd", maxProxy: 0, numUp: 2, maxQueue: 64, role: "read"},
-		{family: "azure", storage: "uncompressed", maxProxy: mp, numUp: 2, maxQueue: 64, role: "read"},
+		{family: "s3", storage: "uncompressed", maxProxy: mpBig, numUp: 2, maxQueue: 64, role: "read"},
+		{family: "azure", storage: "zstd", maxProxy: mpBig, numUp: 2, maxQueue: 64, role: "read"},
+		{family: "azure", storage: "uncompressed", maxProxy: mp, numUp: 4, maxQueue: 3, role: "read"},
 		// upload queue configurations
 		{family: "http", storage: "zstd", numUp: 1, maxQueue: 0, role: "queue"},
 		{family: "http", storage: "uncompressed", numUp: 1, maxQueue: 1, role: "queue"},
@@ -84,6 +102,8 @@ func rigTable(quick bool) ([]rigDef, map[string]budget) {
 		{family: "grpc", storage: "uncompressed", numUp: 100, maxQueue: 0, role: "queue"},
 		{family: "grpc", storage: "zstd", numUp: 1, maxQueue: 1, role: "queue"},
 		{family: "grpc", storage: "uncompressed", numUp: 100, maxQueue: 1000, role: "queue"},
+		{family: "http", storage: "zstd", numUp: 1, maxQueue: 4, role: "queue"},
+		{family: "grpc", storage: "uncompressed", numUp: 3, maxQueue: 2, role: "queue"},
 	}
 	if !quick {
 		defs = append(defs,
@@ -97,28 +117,30 @@ func rigTable(quick bool) ([]rigDef, map[string]budget) {
 	}
 	b := map[string]budget{}
 	if quick {
-		b["http"] = budget{rounds: 6, stalls: 10, queued: 2, writes: 8, wfaults: 5}
-		b["grpc"] = budget{rounds: 6, stalls: 9, queued: 2, writes: 8, wfaults: 3}
-		b["fake"] = budget{rounds: 5, stalls: 8, queued: 2, writes: 8}
-		b["s3"] = budget{rounds: 2, slow: 0, stalls: 2, writes: 4, wfaults: 1}
-		b["azure"] = budget{rounds: 2, writes: 4, wfaults: 1}
-		b["queue"] = budget{rounds: 0, writes: 8, wfaults: 2, fullq: 1}
+		b["http"] = budget{rounds: 6, stalls: 10, queued: 2, writes: 8, wfaults: 5, abandon: 3, seqs: 3}
+		b["grpc"] = budget{rounds: 6, stalls: 9, queued: 2, writes: 8, wfaults: 3, abandon: 3, seqs: 3}
+		b["fake"] = budget{rounds: 5, stalls: 8, queued: 2, writes: 8, abandon: 3}
+		b["s3"] = budget{rounds: 2, slow: 0, stalls: 2, writes: 4, wfaults: 1, abandon: 4, seqs: 3}
+		b["azure"] = budget{rounds: 2, writes: 4, wfaults: 1, abandon: 3, seqs: 3}
+		b["queue"] = budget{rounds: 0, writes: 8, wfaults: 2, fullq: 1, seqs: 3}
 	} else {
-		b["http"] = budget{rounds: 150, stalls: 18, queued: 6, writes: 64, wfaults: 20}
-		b["grpc"] = budget{rounds: 150, stalls: 16, queued: 6, writes: 64, wfaults: 12}
-		b["fake"] = budget{rounds: 130, stalls: 18, queued: 8, writes: 48}
-		b["s3"] = budget{rounds: 40, slow: 1, stalls: 6, writes: 24, wfaults: 3}
-		b["azure"] = budget{rounds: 40, writes: 24, wfaults: 3}
-		b["queue"] = budget{rounds: 0, writes: 32, wfaults: 6, fullq: 3}
+		b["http"] = budget{rounds: 150, stalls: 18, queued: 6, writes: 64, wfaults: 20, abandon: 8, seqs: 12}
+		b["grpc"] = budget{rounds: 150, stalls: 16, queued: 6, writes: 64, wfaults: 12, abandon: 8, seqs: 12}
+		b["fake"] = budget{rounds: 130, stalls: 18, queued: 8, writes: 48, abandon: 8}
+		b["s3"] = budget{rounds: 40, slow: 1, stalls: 6, writes: 24, wfaults: 3, abandon: 6, seqs: 8}
+		b["azure"] = budget{rounds: 40, writes: 24, wfaults: 3, abandon: 8, seqs: 8}
+		b["queue"] = budget{rounds: 0, writes: 32, wfaults: 6, fullq: 3, seqs: 12}
 	}
 	return defs, b
 }
 
 func run(r *lib.Run) {
-	r.SetRule("distinct = (front-end rig [backend x storage mode x queue config], operation, fault plan [stage/fault/position class], size class, stored layout) whose request reached the backend; plus (rig, write path, size class), (rig, stall position), scenario tuples")
+	r.SetRule("distinct = (front-end rig [backend x storage mode x queue config], operation, fault plan [stage/fault/position class], size class, stored layout) whose request reached the backend; plus (rig, write path, size class), (rig, stall position), (rig, abandonment class, operation, size class), (rig, write-sequence shape, number of values), scenario tuples")
 	r.Assume("backends are trusted for content they deliver completely and self-consistently; plans that make a backend lie consistently about an object of unknown size are run for the cleanup/leak oracles only")
 	r.Assume("HTTP/S3/Azure backends in zstd mode cannot state logical sizes on HEAD: size-dependent existence answers are judged only with size-aware backends (DESIGN C10 limits)")
-	r.Assume("Azure is exercised through azblobproxy.VerifNew with an injected transport (basic faults only)")
+	r.Assume("Azure is exercised through azblobproxy.VerifNew with an injected transport; like net/http it gives up a response that is still open when the request's context ends")
+	r.Assume("write sequences: an upload that is queued or being transferred holds its blob file open, so 'no blob file of the front end open' means the upload queue is empty and the uploaders are idle; an upload is 'handed to the backend' when the backend recorded a complete transfer of exactly the accepted value")
+	r.Assume("gRPC backend: open RPCs are counted on both sides (server handlers running; RPCs begun and not ended on the proxies' client connections)")
 
 	w := &world{r: r}
 	w.hooks = lib.NewHookCtl(uint64(r.Seed))
@@ -204,11 +226,16 @@ func run(r *lib.Run) {
 				wk := plan[rg]
 				t0 := time.Now()
 				rg.runReadCases(wk.specs, half)
+				ta := time.Now()
+				rg.runAbandonCases(wk.b.abandon, half)
 				t1 := time.Now()
 				rg.runCancelCases(wk.stalls, wk.b.queued, half)
 				t2 := time.Now()
+				rg.runWriteSequences(wk.b.seqs, half)
+				t3 := time.Now()
 				rg.runWriteCases(wk.b.writes, wk.b.wfaults, wk.b.fullq, half)
-				w.noteTiming(fmt.Sprintf("%s/h%d", rg.name, half), fmt.Sprintf("read %.1fs cancel %.1fs write %.1fs", t1.Sub(t0).Seconds(), t2.Sub(t1).Seconds(), time.Since(t2).Seconds()))
+				w.noteTiming(fmt.Sprintf("%s/h%d", rg.name, half), fmt.Sprintf("read %.1fs abandon %.1fs cancel %.1fs wseq %.1fs write %.1fs",
+					ta.Sub(t0).Seconds(), t1.Sub(ta).Seconds(), t2.Sub(t1).Seconds(), t3.Sub(t2).Seconds(), time.Since(t3).Seconds()))
 			}(rg)
 		}
 		wg.Wait()
@@ -247,13 +274,15 @@ func run(r *lib.Run) {
 	// A run whose monitors saw nothing of a required kind is not a pass.
 	if !filtered && r.Violations() == 0 {
 		for _, c := range []string{"local.served-without-backend", "write.exactly-once", "stall.backend-request-abandoned",
-			"oracle.faulty-read.ok", "oracle.read-after-recovery.ok", "fd.full-queue-within-bound", "leak.observations", "quiescence.dir-ok"} {
+			"oracle.faulty-read.ok", "oracle.read-after-recovery.ok", "fd.full-queue-within-bound", "leak.observations", "quiescence.dir-ok",
+			"abandon.class-measured", "wseq.sequence-judged", "wseq.overlap(second-upload-while-first-in-transfer)", "wseq.peer-reads-latest"} {
 			if r.Counter(c) == 0 {
 				r.Inconclusive("no observation of kind " + c)
 			}
 		}
 	}
 	r.Extra("timing", w.timing)
+	r.Extra("abandon_open_connections[before,after-k,after-2k]", w.abandonOpen)
 	r.Extra("rigs", len(w.rigs))
 }
 
